@@ -370,7 +370,8 @@ def threads_part(spec, ctx, overrides=None):
         results, s = sched.run_schedule(codes, make_ops(), overrides)
         check(results, s, overrides)
         return
-    stats = sched.explore(codes, make_ops, check, spec['bound'], max_schedules=3000 if ctx.tier == 'quick' else 60000)
+    stats = sched.explore(codes, make_ops, check, spec['bound'], max_schedules=3000 if ctx.tier == 'quick' else 60000,
+                          max_seconds=None if ctx.tier == 'quick' else 1200)
     ctx.count('distinct interleavings (trace fingerprints)', len(stats['fingerprints']))
     ctx.count('single-preemption schedules executed', stats['by_preemptions'].get(1, 0))
     ctx.note('threads=%d bound=%d: %d schedules (by number of preemptions %r, %d left unexplored by the cap), %d distinct interleavings, up to '
